@@ -13,5 +13,9 @@ def run(ctx):
     gr.rule_unsupported_is_error(ctx, g, "R03.5")
     gr.rule_endianness(ctx, g, "R03.6", "gds21::read::", "gds21::read")
     gr.rule_read_primitives(ctx, g, "R03.6b")
+    gr.rule_exact_reads(ctx, g, "R03.7")
+    # a conformant stream is in particular a stream: the reader must not panic on it (same rule instance set as C10 R10.1)
+    from rules import panicrules as pr
+    roots = pr.roots_by_short(ctx.F, ("data::GdsLibrary::from_bytes", "data::GdsLibrary::open", "data::GdsLibrary::load"))
+    pr.rule_panic_free(ctx, "R03.8", roots, "GdsLibrary::from_bytes/open", scope_prefixes=["gds21::"], floor=40)
     ctx.assume("the oracle rules/oracle/gdsii.json is a faithful transcription of the GDSII Stream Format manual")
-    ctx.assume("zero-length strings: safety of the NUL strip for an empty payload is decided under C10 (R10.1)")
